@@ -401,6 +401,31 @@ func TestC10Restart(t *testing.T) {
 				c.Count("cancel_then_request", 1)
 			}
 			c.Count("skip_checks", 1)
+			// 4b. the restarted request replays, from position 1, blocks the receiver already holds (served from
+			// its own store: not on the wire, not unique); the replay has only partly caught up when the
+			// channel is restarted again. The recorded progress is still what it was, and so is the skip count.
+			if rl.Initiator && !reopen && before.RecvIdx >= 2 && accepted && apiErr == nil {
+				k := 1 + r.Intn(int(before.RecvIdx)-1)
+				for i := 1; i <= k; i++ {
+					f.gs.IncomingBlockHook(other, doubles.Resp(newReq.ID, nil, graphsync.PartialResponse), doubles.Block(uint64(100+i), int64(i), false), &testharness.FakeIncomingBlockHookActions{})
+				}
+				settle()
+				if v2 := f.view(chid); v2 != nil && (v2.RecvIdx != before.RecvIdx || v2.Received != before.Received) {
+					c.Violation("C10", "replay-after-restart-altered-progress", "replay of the first %d of %d held blocks after the restart changed the recorded progress: index %d -> %d, bytes %d -> %d", k, before.RecvIdx, before.RecvIdx, v2.RecvIdx, before.Received, v2.Received)
+				}
+				ngs2 := f.gs.Len()
+				if err := f.m.RestartDataTransferChannel(bg, chid); err == nil {
+					settle()
+					for _, gc := range f.gs.Calls()[ngs2:] {
+						if gc.Op == "request" {
+							if n2, ok := skipCountOf(gc); ok && n2 != before.RecvIdx {
+								c.Violation("C10", "skip-count-mismatch second-restart", "second restart during the replay: sender told to skip %d blocks, %d are recorded as received", n2, before.RecvIdx)
+							}
+							c.Count("second_restart_during_replay", 1)
+						}
+					}
+				}
+			}
 		}
 		// 6. messages queued while the requester was away: delivered once on its next request
 		if remote && rl.Pull && queued > 0 && accepted {
